@@ -467,7 +467,8 @@ def _runlen(n):
     return bytes(out)
 
 
-def enc_zrle(r, pf, x, y, w, h):
+def enc_zrle(r, pf, x, y, w, h, force_palette=None):
+    """force_palette=n: every tile is a packed-palette tile of n colours (corpus cases)"""
     raw = b""
     paint = []
     kinds = set()
@@ -478,7 +479,7 @@ def enc_zrle(r, pf, x, y, w, h):
         while tx < x + w:
             tw = min(64, x + w - tx)
             n = tw * th
-            k = r.random()
+            k = r.random() if force_palette is None else .4
             if k < .15:
                 px = [rand_rgb(r) for _ in range(n)]
                 raw += bytes([0]) + b"".join(cpixel_bytes(pf, p) for p in px)
@@ -489,7 +490,7 @@ def enc_zrle(r, pf, x, y, w, h):
                 raw += bytes([1]) + cpixel_bytes(pf, c)
                 kinds.add("zsolid")
             elif k < .55:
-                ps = r.choice([2, 2, 3, 4, 5, 16])
+                ps = r.choice([2, 2, 3, 4, 5, 16]) if force_palette is None else force_palette
                 pal = [rand_rgb(r) for _ in range(ps)]
                 idx = [r.randrange(ps) for _ in range(n)]
                 bits = 1 if ps == 2 else 2 if ps <= 4 else 4
